@@ -107,8 +107,8 @@ Lemma bw_write_inv fp o sizes inp bs : bw_write fp o sizes inp = Ok bs ->
 Proof.
   unfold bw_write. destruct (bw_collect fp o sizes inp) as [[[[ids outs] sum] data]| | |]; cbn [rbind]; try discriminate.
   cbv zeta. fold (zoom_levels_for fp o outs (zoom_sizes_single o)).
-  destruct (zoom_levels_for fp o outs (zoom_sizes_single o)) as [zooms| | |]; cbn [rbind]; try discriminate.
-  intros H. exists ids, outs, sum, data, zooms. auto.
+  destruct (zoom_levels_for fp o outs (zoom_sizes_single o)) as [zooms| | |] eqn:Ez; cbn [rbind]; try discriminate.
+  intros H. exists ids, outs, sum, data, zooms. split; [reflexivity|]. split; [exact Ez|exact H].
 Qed.
 
 Lemma bw_write_multipass_inv fp o sizes inp bs : bw_write_multipass fp o sizes inp = Ok bs ->
@@ -117,7 +117,7 @@ Lemma bw_write_multipass_inv fp o sizes inp bs : bw_write_multipass fp o sizes i
     /\ assemble o BIGWIG_MAGIC sizes ids sum data bw_pre 0 0 0 (multi_zoom_part fp o outs sum) (fun n => n) = Ok bs.
 Proof.
   unfold bw_write_multipass. destruct (bw_collect fp o sizes inp) as [[[[ids outs] sum] data]| | |]; cbn [rbind]; try discriminate.
-  cbv zeta. intros H. exists ids, outs, sum, data. auto.
+  cbv zeta. intros H. exists ids, outs, sum, data. split; [reflexivity|exact H].
 Qed.
 
 Lemma single_zoom_bound fp o outs zooms : zoom_levels_ok o ->
@@ -202,3 +202,68 @@ Proof.
     (fp_zbytes p1 ++ u32 BIGWIG_MAGIC), (fp_zbytes p2 ++ u32 BIGWIG_MAGIC).
   split; [exact E1|]. split; [rewrite E2, <- Hct2, <- Eix; reflexivity|]. split; [exact L1|exact L2].
 Qed.
+
+(* ---------- the statements Properties/C01.v exports ---------- *)
+Lemma roundtrip_read_info sizes inp bs : roundtrip_for sizes inp bs ->
+  exists i, read_info bs = Ok i
+    /\ h_big (i_hdr i) = false /\ h_bigwig (i_hdr i) = true /\ h_version (i_hdr i) = 4
+    /\ h_ubuf (i_hdr i) = 0 /\ h_full_data_off (i_hdr i) = PRE_DATA - 8 /\ h_summary_off (i_hdr i) = PRE_DATA - 48
+    /\ h_zoom_levels (i_hdr i) = Nlen (i_zooms i) /\ Nlen (i_zooms i) <= 10.
+Proof. intros (i & H & H1 & H2 & H3 & H4 & H5 & H6 & H7 & H8 & _). exists i. repeat (split; [assumption|]). assumption. Qed.
+
+Lemma roundtrip_chroms sizes inp bs i : roundtrip_for sizes inp bs -> read_info bs = Ok i ->
+  i_chroms i = expected_chroms sizes inp.
+Proof.
+  intros (i' & H & _ & _ & _ & _ & _ & _ & _ & _ & Hc & _) Hri. rewrite H in Hri. apply Ok_inj in Hri. now subst.
+Qed.
+
+Lemma roundtrip_query sizes inp bs i infl c vs s e : roundtrip_for sizes inp bs -> read_info bs = Ok i ->
+  In (c, vs) (runs inp) -> bw_interval infl bs i c s e = Ok (clip_filter s e vs).
+Proof.
+  intros (i' & H & _ & _ & _ & _ & _ & _ & _ & _ & _ & Hq) Hri. rewrite H in Hri. apply Ok_inj in Hri. subst. apply Hq.
+Qed.
+
+Section Statements.
+Variables (fp : fpmode) (o : opts) (sizes : list (name * N)) (inp : list item) (bs : list N).
+Hypothesis Ho : opts_ok o.
+Hypothesis Hz : zoom_levels_ok o.
+Hypothesis Hi : input_ok sizes inp.
+Hypothesis Hs : Nlen bs < U64.
+
+Lemma write_accepted : bw_write fp o sizes inp = Ok bs \/ bw_write_multipass fp o sizes inp = Ok bs ->
+  forall c vs, In (c, vs) (runs inp) -> exists len, lookup c sizes = Some len /\ wf_vals len vs /\ vs <> [].
+Proof.
+  intros [H|H] c vs Hin; destruct Hi as (Hnd & _).
+  - destruct (bw_write_inv _ _ _ _ _ H) as (ids & outs & sum & data & zooms & Hcol & _).
+    exact (collect_accepted _ _ _ _ _ _ _ _ c vs Hcol Hnd Hin).
+  - destruct (bw_write_multipass_inv _ _ _ _ _ H) as (ids & outs & sum & data & Hcol & _).
+    exact (collect_accepted _ _ _ _ _ _ _ _ c vs Hcol Hnd Hin).
+Qed.
+
+Lemma write_roundtrip_for : bw_write fp o sizes inp = Ok bs \/ bw_write_multipass fp o sizes inp = Ok bs ->
+  roundtrip_for sizes inp bs.
+Proof.
+  intros [H|H]; [exact (bw_write_roundtrip _ _ _ _ _ H Ho Hz Hi Hs)|exact (bw_write_multipass_roundtrip _ _ _ _ _ H Ho Hz Hi Hs)].
+Qed.
+
+(* full-span read of a chromosome: every accepted value back, bit-identical, in order, except
+   zero-length values at 0 / at the chromosome end *)
+Lemma write_full_span : bw_write fp o sizes inp = Ok bs \/ bw_write_multipass fp o sizes inp = Ok bs ->
+  forall i infl c vs len, read_info bs = Ok i -> In (c, vs) (runs inp) -> lookup c sizes = Some len ->
+    bw_interval infl bs i c 0 len = Ok (filter (fun v => negb (boundary_zero len v)) vs).
+Proof.
+  intros H i infl c vs len Hri Hin Hl.
+  rewrite (roundtrip_query sizes inp bs i infl c vs 0 len (write_roundtrip_for H) Hri Hin).
+  destruct (write_accepted H c vs Hin) as (len' & Hl' & Hwf & _). rewrite Hl in Hl'. inversion Hl'; subst len'.
+  now rewrite (full_span_read len vs Hwf).
+Qed.
+Lemma write_full_span_exact : bw_write fp o sizes inp = Ok bs \/ bw_write_multipass fp o sizes inp = Ok bs ->
+  forall i infl c vs len, read_info bs = Ok i -> In (c, vs) (runs inp) -> lookup c sizes = Some len ->
+    Forall (fun v => boundary_zero len v = false) vs -> bw_interval infl bs i c 0 len = Ok vs.
+Proof.
+  intros H i infl c vs len Hri Hin Hl Hb.
+  rewrite (roundtrip_query sizes inp bs i infl c vs 0 len (write_roundtrip_for H) Hri Hin).
+  destruct (write_accepted H c vs Hin) as (len' & Hl' & Hwf & _). rewrite Hl in Hl'. inversion Hl'; subst len'.
+  now rewrite (full_span_read_exact len vs Hwf Hb).
+Qed.
+End Statements.
